@@ -472,3 +472,15 @@ PROPS["C14"]["units"] += [
     K("h_cuckoo::ck_insert_step_kani", "thorough", "insert step on the compiled code (real IntVector bit packing): same clauses as the engine-M unit; the two verdicts must agree", "(2,2,l=16), 2 kicks", features=["kicks2"], mem_class_gb=20, timeout_s=3600, mem_gb=40),
     K("h_cuckoo::ck_delete_query_kani", "thorough", "delete/query on the compiled code", "(2,2,l=16)", features=["kicks2"], mem_class_gb=10, timeout_s=3600, mem_gb=30),
 ]
+
+PROPS["C17"]["engine"] = "kani+mir2smt"
+PROPS["C17"]["bounds"] = "Kani: b = 4 (16 registers, arbitrary u8 contents), full 64-bit symbolic hash values; engine M: add_hashed for EVERY precision b in 4..=18 with the register vector as an SMT array of length 2^b"
+PROPS["C17"]["outside"] = ["count() accuracy (C03)", "order/repetition independence and reconstruction for b > 4 follow from the per-register max semantics decided for all b (not re-checked per b)"]
+PROPS["C17"]["units"].append(M("hll_add_hashed_all_b", "quick", "engine M on the MIR of add_hashed, b symbolic in 4..=18, registers an array of length 2^b: index in range, no overflow/truncation, register j = max(old, rank) with an independent relational rank specification (no clz), all other registers unchanged",
+                               "all b", model="kernel", kernel="hll_add_hashed_all_b", need_witness=["ret", "rank_max_at_b18", "rank_1_at_b4"]))
+
+PROPS["C02"]["engine"] = "kani+mir2smt"
+PROPS["C02"]["units"].append(M("hashiter_next_64bit", "quick", "engine M on the MIR of HashIter::next at full 64-bit width: for m <= 2^31, h1,h2,f(i) < m: no overflow / division by zero, Some iff i < k, position < m, i advances by one (hence exactly k positions); overflow is possible above the bound (witness)",
+                               "m <= 2^31, any k, i", model="kernel", kernel="hashiter_next", need_witness=["ret", "overflow_possible_when_m_above_2_31"]))
+PROPS["C02"]["outside"] = ["tables larger than 3x2 / 2x3 in the Kani step harnesses", "counter overflow (checked_add panics) is assumed away: N+n <= C::MAX", "more than 2^31 columns (HashIter::next can overflow u64 there — shown satisfiable by the engine-M kernel)"]
+PROPS["C01"]["units"].append(M("hashiter_next_64bit", "quick", "HashIter::next (Bloom positions) at 64 bits: position < m, exactly k positions, no overflow for m <= 2^31", "m <= 2^31", model="kernel", kernel="hashiter_next", need_witness=["ret"]))
